@@ -186,7 +186,7 @@ def _other_value(kn, v):
 
 
 def run(ctx):
-    proof = core.prove(MODULES, leanchecker=ctx.thorough)
+    proof = core.prove(MODULES, extra_targets=["AdaptiveProofs.Examples.Misc"], leanchecker=ctx.thorough)
     args = [(kn, ctx.rng.randrange(1 << 30), ctx.n(35, 70)) for kn in KINDS for _ in range(ctx.n(14, 300))]
     results = core.pmap(case, args)
     failures, dist, aborted, stats = [], {}, {}, {}
